@@ -205,28 +205,14 @@ class Ctx:
         return self._number(out)
 
     # ------------------------------------------------------------ exact boolean functions
-    def bool_exact(self, rule, fn, mode, props, what):
-        """the bool function `fn` computes exactly the OR (mode='or') / AND (mode='and') of the given
-        propositions (regexes over shortened normal-form propositions, without anchors): nothing else can make
-        it true, and nothing else can make it false.  or: every true return crosses an edge establishing one
-        of them, every false return crosses the negation of each.  and: dually."""
-        pos = [re.compile('^(?:' + p + ')$') for p in props]
-        neg = [re.compile('^!(?:' + p + ')$') for p in props]
+    def bool_cnf(self, rule, fn, clauses, what):
+        """the bool function `fn` computes exactly AND over `clauses` of OR over the clause's propositions (regexes over
+        shortened normal-form propositions, without anchors): nothing else can make it true and nothing else can make it
+        false.  Every true return crosses, for each clause, an edge establishing one of its propositions; every false
+        return crosses the negation of every proposition of some clause."""
+        pos = [[re.compile('^(?:' + p + ')$') for p in cl] for cl in clauses]
+        neg = [[re.compile('^!(?:' + p + ')$') for p in cl] for cl in clauses]
         tr, fr = self.true_returns(fn), self.false_returns(fn)
-        ok_all = True
-
-        def crosses(site, rxs, need_all):
-            res = []
-            for rx in rxs:
-                if any(rx.search(x) for x in site.extra):
-                    res.append(True)
-                    continue
-
-                def edge_ok(bb, s_, ps, rx=rx):
-                    return not any(rx.search(shorten(p_)) for p_ in ps)
-                seen = self.reach(fn).run(edge_ok=edge_ok, start=0)
-                res.append(site.bb not in seen)
-            return all(res) if need_all else False
 
         def crosses_any(site, rxs):
             if any(rx.search(x) for rx in rxs for x in site.extra):
@@ -234,20 +220,25 @@ class Ctx:
 
             def edge_ok(bb, s_, ps):
                 return not any(rx.search(shorten(p_)) for rx in rxs for p_ in ps)
-            seen = self.reach(fn).run(edge_ok=edge_ok, start=0)
-            return site.bb not in seen
+            return site.bb not in self.reach(fn).run(edge_ok=edge_ok, start=0)
+
+        def crosses_all(site, rxs):
+            return all(crosses_any(site, [rx]) for rx in rxs)
+        ok_all = True
         for s in tr:
-            ok = crosses_any(s, pos) if mode == 'or' else crosses(s, pos, True)
-            self.check(rule, ok, fn.path, s.key(), what + (':true-only-through-a-listed-disjunct' if mode == 'or' else ':true-needs-every-conjunct'),
-                       s.term[:160] + ' ' + ' '.join(s.extra)[:160], s.loc)
+            ok = all(crosses_any(s, cl) for cl in pos)
+            self.check(rule, ok, fn.path, s.key(), what + ':true-needs-every-clause', s.term[:160] + ' ' + ' '.join(s.extra)[:160], s.loc)
             ok_all &= ok
         for s in fr:
-            ok = crosses(s, neg, True) if mode == 'or' else crosses_any(s, neg)
-            self.check(rule, ok, fn.path, s.key(), what + (':false-needs-every-disjunct-false' if mode == 'or' else ':false-only-through-a-listed-conjunct'),
-                       s.term[:160] + ' ' + ' '.join(s.extra)[:160], s.loc)
+            ok = any(crosses_all(s, cl) for cl in neg)
+            self.check(rule, ok, fn.path, s.key(), what + ':false-only-when-a-clause-fails', s.term[:160] + ' ' + ' '.join(s.extra)[:160], s.loc)
             ok_all &= ok
         self.check(rule, len(tr) >= 1 and len(fr) >= 1, fn.path, 'returns', what + ':both-outcomes-present', f'{len(tr)} true, {len(fr)} false returns')
         return ok_all
+
+    def bool_exact(self, rule, fn, mode, props, what):
+        """OR (mode='or') / AND (mode='and') of the given propositions, exactly"""
+        return self.bool_cnf(rule, fn, [list(props)] if mode == 'or' else [[p] for p in props], what)
 
     # ------------------------------------------------------------ GUARD
     def has_guard(self, site, pattern, start=0):
